@@ -28,6 +28,8 @@ CLAIMED = {
     "C12": (H + " + " + S, "All sequences of length <=4 (thorough 5) over {sub, unsub} x {pa, pb, pa' (equal value, distinct object)} + broadcast against a set-of-PID-values model; 2 concurrent broadcasters x 2 events (exactly once, per-broadcaster order; deviation bound 2-3); the engine's own lifecycle events (initialized, started, restarted, duplicate id, dead letter, stopped) exactly once per occurrence.", "§5 C12"),
     "C13": (S + "; delivery paths enumerated exhaustively", "Middleware chains of length 1-3 with recording middlewares on every path a message can reach a receiver (spawn, user message, stop, poison, crash + restart, replay of the restart buffer, max restarts), one batch and racing driver: each middleware entered exactly once per delivery in configured order, receiver innermost, same message/sender inside the chain; deviation bound 1-2.", "§5 C13"),
     "C14": (H + " (sequential part: BFS keyed on ring geometry) + " + S + " (concurrent part, brute-force linearizability check of every explored history against the FIFO model)", "Sequential: every operation sequence over {Push, Pop, PopN(1,2,3,1<<20), Len} up to depth 20 (quick) / 34 (thorough) from initial sizes 1..4 with state key (mod, head, tail, len), each return value compared with a slice model. Concurrent: 2 threads x 1-2 operations and 3 threads x 1 operation from 8 start states (empty, full, wrapped, about to grow), all schedules (unbounded search finished); every call/return history checked for linearizability.", "§5 C14"),
+    "C15": (I, "All outbound batches of length 1-2 over 3 targets x 6 senders (nil, S1, S2, an equal-valued distinct PID object, a pair differing only in the address/id split) x 7 payloads (three registered types incl. an empty message, a proto value whose Marshal fails, a non-proto value), all batches of length 3 over reduced pools (thorough: full pools, 2.0M batches) and of length 4 over tiny pools, pushed through the real streamWriter.Invoke, generated drpc wrappers, production MarshalVT/UnmarshalVT and streamReader.Receive into recording Processers: same count, order, target, type, payload (proto.Equal) and sender (nil iff sent without); an unserialisable message is dropped alone, nothing delivered in its place, no panic.", "§5 C15"),
+    "C16": (I, "Structured envelopes: 4 type-name tables x 3 target tables x 3 sender tables x 0-2 messages whose three indices range over {-1,0,1,2,MaxInt32,MinInt32} (two messages: {-1,0,1} quick, {-1,0,1,MaxInt32} thorough) and data over {valid, garbage, empty}, encoded with the real MarshalVT; byte level: every proper prefix, single-byte deletion and single-byte substitution of 7 seed encodings. Everything UnmarshalVT accepts goes through streamReader.Receive: no panic, deliveries only for messages whose own indices are valid and only to the target/type/sender they name, good messages in front of a bad one are delivered, the node still works afterwards.", "§5 C16"),
 }
 
 NOT_YET = "check not built yet in this session (planned: see DESIGN.md §5); not claimed until it runs green on the unchanged tree"
